@@ -114,6 +114,10 @@ class FQueue:
         self.sched, self.qname, self.items, self.got = sched, qname, [], {}
 
     def put(self, x):
+        if self.qname != 'q_int':
+            # a multiprocessing queue hands over a pickled copy; the thread queue hands over the object itself
+            import pickle
+            x = pickle.loads(pickle.dumps(x))
         self.sched.point('put', self, x)
 
     def get(self, block=True, timeout=None):
@@ -163,7 +167,16 @@ class FThread:
         return not self.done
 
 
-def run_schedule(nworkers, rows, chooser):
+def aliased(rows, alias):
+    """alias: every row holds the same list object in 'log' (what add_field(..., default=[]) produces)"""
+    if alias:
+        shared = []
+        for r in rows:
+            r['log'] = shared
+    return rows
+
+
+def run_schedule(nworkers, rows, chooser, alias=False):
     """runs the real fork() under the scheduler; returns (trace labels, delivered, prefix, error)"""
     sched = Sched(chooser)
     wcount = itertools.count()
@@ -217,7 +230,7 @@ def run_schedule(nworkers, rows, chooser):
 
     def consume():
         try:
-            for r in PMOD.fork(iter(copy.deepcopy(rows)), row_func, nworkers, lambda r: r['sel']):
+            for r in PMOD.fork(iter(aliased(copy.deepcopy(rows), alias)), row_func, nworkers, lambda r: r['sel']):
                 delivered.append(r)
         except SystemExit:
             pass
@@ -270,6 +283,10 @@ def gen_cases(rng, tier):
         k = rng.randint(0, 8)
         pat = rng.pick(['none', 'all', 'some', 'late', 'first', 'some', 'all'])
         cases.append({'kind': 'random', 'workers': n, 'rows': gen_rows(k, pat), 'seed': rng.randrange(10 ** 9)})
+        if rng.chance(0.25):
+            cases[-1]['alias'] = True      # all rows share one mutable value: each worker still gets its own copy
+    for n in (1, 2):
+        cases.append({'kind': 'random', 'workers': n, 'rows': gen_rows(6, 'some'), 'seed': 7 + n, 'alias': True})
     if tier == 'thorough':
         cases.append({'kind': 'real_processes', 'workers': 3, 'rows': gen_rows(40, 'some')})
     return cases
@@ -305,11 +322,11 @@ def run_impl(case):
             row['log'].append('x')
             row['twice'] = 2 * row.pop('tmp')
         with quiet():
-            got = list(PMOD.fork(iter(copy.deepcopy(rows)), rf, n, lambda r: r['sel']))
+            got = list(PMOD.fork(iter(aliased(copy.deepcopy(rows), case.get('alias'))), rf, n, lambda r: r['sel']))
         return {'problem': check_run(rows, got, []), 'seconds': round(time.time() - t0, 1), 'schedules': 1}
     if case['kind'] == 'random':
         r = Rng(case['seed'])
-        trace, delivered, err = run_schedule(n, rows, lambda en, step: en[r.randrange(len(en))])
+        trace, delivered, err = run_schedule(n, rows, lambda en, step: en[r.randrange(len(en))], alias=case.get('alias', False))
         return {'problem': check_run(rows, delivered, err), 'labels': to_labels(trace),
                 'delivered': [[d['id'], d['sel'], d['done']] for d in delivered], 'schedules': 1}
     # exhaustive: stateless DFS over choice sequences
@@ -323,7 +340,7 @@ def run_impl(case):
         def chooser(en, step, prefix=prefix, widths=widths):
             widths.append(len(en))
             return en[prefix[step]] if step < len(prefix) else en[0]
-        trace, delivered, err = run_schedule(n, rows, chooser)
+        trace, delivered, err = run_schedule(n, rows, chooser, alias=case.get('alias', False))
         explored += 1
         p = check_run(rows, delivered, err)
         if sample is None:
